@@ -415,6 +415,37 @@ for _p, _what in (("C01", "sikOf / K1 / K2 (and rakp3Code, which the BMC must ac
     PROPS[_p]["note"] += ("; Gen/Keys.lean rests on the hash.Hash / io.Writer contract (Write appends what the slice holds at the call and does not retain it, Sum(nil) is the MAC of "
                           "what was written since the last Reset, hmac.New starts reset) written out in its header and in Lemmas/GenKeys.lean: mac")
     PROPS[_p]["modelled"] = PROPS[_p]["modelled"] + ["key formulas keygen gives up on (listed in Gen/Keys.lean: gaveUp, with reasons; none at delivery) stay hand models tied by correspondence only"]
+# The ORCHESTRATION functions (loops over SendCommand) regenerated by tools/decgen -orch -> lean/Bmc/Gen/Orch.lean and proved equal
+# to the hand models (lean/Bmc/Proofs/GenOrch/<Function>.lean): items 1, 2 -> C16; 2, 3 -> C12.
+GENORCH_DCMI = ["Bmc.Proofs.GenOrch.TranslatedOk", "Bmc.Proofs.GenOrch.GetEntityInstances", "Bmc.Proofs.GenOrch.GetSensorMap",
+                "Bmc.Proofs.GenOrch.CountRecordIDs", "Bmc.Proofs.GenOrch.GetSensorInfo"]
+GENORCH_RETRIEVE = ["Bmc.Proofs.GenOrch.RetrieveSupportedCipherSuites"]
+GENORCH_DETERMINE = ["Bmc.Proofs.GenOrch.TranslatedOk", "Bmc.Proofs.GenOrch.DetermineCipherSuite"]
+PROPS["C16"]["claim"] += (" REGENERATED ORCHESTRATION: getEntityInstances, getSensorMap, sensorMap.CountRecordIDs, GetSensorInfo and RetrieveSupportedCipherSuites "
+                          "are RE-TRANSLATED from the Go source on every run (tools/decgen -orch -> Gen/Orch.lean: SendCommand + ValidateResponse as an application of the "
+                          "BMC's answer function, a PARAMETER threaded through a state monad; the command struct as the cell of the state; for loops with break as "
+                          "fuelled loops; Go maps as association lists) and proved to return what the hand models return - result AND request sequence - for every typed "
+                          "BMC, every content of the response struct after a failed command and every fuel >= 256 / 64; that fuel suffices for EVERY answer function "
+                          "over any state, i.e. also for a BMC whose answers change over time (Proofs/GenOrch/*.lean: F_gen_eq, F_fuel, F_fuel_any).")
+PROPS["C16"]["proofs"] = PROPS["C16"]["proofs"] + GENORCH_DCMI + GENORCH_RETRIEVE
+PROPS["C16"]["modelled"] = PROPS["C16"]["modelled"] + ["regenerated orchestration functions: Go int is N (lengths, counts, conversions of unsigned fields; no wrap at 2^63); a pointer to a struct is its value; "
+                                                       "the iteration order of a Go map is only used for a commutative sum; functions tools/decgen -orch gives up on (Gen/Orch.lean: gaveUp, with reasons) stay hand models tied by correspondence only"]
+PROPS["C12"]["claim"] += (" REGENERATED ORCHESTRATION: determineCipherSuite (with the table defaultCipherSuites) and RetrieveSupportedCipherSuites are RE-TRANSLATED from the Go "
+                          "source on every run (tools/decgen -orch -> Gen/Orch.lean; the BMC's answer function is a parameter) and proved equal to determineFull / "
+                          "retrieveSupportedCipherSuites for every preference list and every typed BMC: the suite proposed or the error, whether discovery ran, and the list "
+                          "indices asked for (Proofs/GenOrch/DetermineCipherSuite.lean, RetrieveSupportedCipherSuites.lean).")
+PROPS["C12"]["proofs"] = PROPS["C12"]["proofs"] + GENORCH_DETERMINE + GENORCH_RETRIEVE
+GENORCH_SDR = ["Bmc.Proofs.GenOrch.TranslatedOk", "Bmc.Proofs.GenOrch.WalkSDRs", "Bmc.Proofs.GenOrch.RetrieveSDRRepository"]
+_GENORCH_SDR_CLAIM = (" REGENERATED ORCHESTRATION: walkSDRs and RetrieveSDRRepository are RE-TRANSLATED from the Go source on every run (tools/decgen -orch -> Gen/Orch.lean: "
+                      "SendCommand / ReserveSDRRepository / GetSDRRepositoryInfo as applications of the BMC's answer functions, the reused GetSDRCmd as the cell of the state whose "
+                      "response part every command replaces, gopacket.NewPacket(.., Lazy).Layer(..) as the regenerated SDR / FullSensorRecord decoders of Gen/Dec.lean on a copy "
+                      "of the payload, the walk as a fuelled loop, backoff.Retry as at most `attempts` runs of the closure) and proved equal to the hand model Proto/SdrWalk.lean "
+                      "(walk / retrieve with the map key header.ID) for EVERY raw answer function over any state, every fuel and every number of attempts: the repository or the "
+                      "error, outOfFuel exactly where the hand model reports it, and the final state of the answer function, i.e. the requests made "
+                      "(Proofs/GenOrch/WalkSDRs.lean, RetrieveSDRRepository.lean).")
+for _p in ("C14", "C17"):
+    PROPS[_p]["claim"] += _GENORCH_SDR_CLAIM
+    PROPS[_p]["proofs"] = PROPS[_p]["proofs"] + GENORCH_SDR
 
 # The regenerated serialisers (tools/encgen -> lean/Bmc/Gen/Enc.lean) and their equality with the hand encoder models
 # (lean/Bmc/Proofs/GenEnc.lean) support C06 and C08 alike.
